@@ -1,14 +1,17 @@
 #!/bin/sh
 # Confirms a seeded change in its scratch worktree: demo fails with the change, passes without, existing suite passes with it.
-# usage: seed_confirm.sh <worktree>
+# usage: seed_confirm.sh <worktree>     (no git stash: refs/stash is shared between worktrees)
 W=$1
 cd "$W" || exit 2
 export CARGO_NET_OFFLINE=true
+P=$W/MUTATION/patch.diff
+echo "== worktree diff equals MUTATION/patch.diff?"
+git diff -- oxmpl/src oxmpl-py/src | diff -q - "$P" && echo same
 echo "== demo WITH change"; cargo test -p oxmpl --offline --test mutation_demo 2>&1 | grep -E "^test |test result|error" | tail -8
-git stash push -q -- oxmpl/src oxmpl-py/src
+git apply -R "$P" || exit 3
 echo "== demo WITHOUT change"; cargo test -p oxmpl --offline --test mutation_demo 2>&1 | grep -E "^test |test result|error" | tail -8
-git stash pop -q
+git apply "$P" || exit 3
 echo "== existing suite WITH change"
-mv oxmpl/tests/mutation_demo.rs /tmp/$(basename $W)_demo.rs.keep
+mv oxmpl/tests/mutation_demo.rs $W/MUTATION/.demo.keep
 cargo test --workspace --offline --no-fail-fast 2>&1 | grep -E "test result|FAILED|failed|panicked" | sort | uniq -c | tail -12
-mv /tmp/$(basename $W)_demo.rs.keep oxmpl/tests/mutation_demo.rs
+mv $W/MUTATION/.demo.keep oxmpl/tests/mutation_demo.rs
